@@ -297,6 +297,33 @@ pub fn worker_main(args: &[String]) -> i32 {
         done += 1;
     }
     stats.bump("random:runs", done);
+    // concurrent-caller runs (same directory, different files, baton-scheduled)
+    let conc_count = arg_u64(args, "--conc-count", 0);
+    for j in 0..conc_count {
+        if j % 64 == 0 && t0.elapsed().as_secs() >= max_secs {
+            truncated = true;
+            break;
+        }
+        let jj = start + j * stride;
+        let run = super::conc::gen_conc_run(seed, jj);
+        let rep = super::conc::exec_conc(&ctx, &run, &mut stats);
+        if rep.hung {
+            let _ = writeln!(out, "{{\"hang\":{}}}", run.index);
+            stats.bump("note:conc_run_hung", 1);
+            let _ = writeln!(out, "{}", json!({"stats": stats}));
+            let _ = out.flush();
+            std::process::exit(3);
+        }
+        let _ = writeln!(out, "{}", run_hash_line(run.index, rep.hash));
+        if let Some(v) = rep.violation {
+            let class = format!("conc:{}", v.class());
+            stats.bump(&format!("violation:{}", class), 1);
+            let n = violations.keys().filter(|k| k.starts_with(&class)).count();
+            if n < 3 {
+                violations.insert(format!("{}#{}", class, n), json!({"violation": v, "conc_run": run, "task": rep.task}));
+            }
+        }
+    }
     if truncated {
         stats.bump("note:worker_stopped_by_time_cap", 1);
     }
@@ -332,6 +359,25 @@ pub fn exec_main(args: &[String]) -> i32 {
             return 2;
         }
     };
+    if v.get("conc_run").is_some() {
+        let run: super::conc::ConcRun = match serde_json::from_value(v["conc_run"].clone()) {
+            Ok(r) => r,
+            Err(e) => {
+                eprintln!("harness error: bad conc_run in {}: {}", path, e);
+                return 2;
+            }
+        };
+        let ctx = worker_prelude();
+        let mut stats = Stats::default();
+        let rep = super::conc::exec_conc(&ctx, &run, &mut stats);
+        if rep.hung {
+            println!("{}", json!({"violation": null, "hang": run.index}));
+            std::process::exit(3);
+        }
+        let _ = std::fs::remove_dir_all(&ctx.scratch);
+        println!("{}", json!({"violation": rep.violation, "hash": format!("{:016x}", rep.hash), "decisions": rep.decisions}));
+        return if rep.violation.is_some() { 1 } else { 0 };
+    }
     let run_v = if v.get("run").is_some() { v["run"].clone() } else { v.clone() };
     let run: IoRun = match serde_json::from_value(run_v) {
         Ok(r) => r,
@@ -359,14 +405,15 @@ pub fn exec_main(args: &[String]) -> i32 {
 
 pub struct Budget {
     pub random_runs: u64,
+    pub conc_runs: u64,
     pub max_secs: u64,
 }
 
 pub fn budget(tier: Tier) -> Budget {
     let scale = std::env::var("VERIF_SCALE").ok().and_then(|s| s.parse::<f64>().ok()).unwrap_or(1.0);
     match tier {
-        Tier::Quick => Budget { random_runs: (24_000.0 * scale) as u64, max_secs: 120 },
-        Tier::Thorough => Budget { random_runs: (600_000.0 * scale) as u64, max_secs: 1500 },
+        Tier::Quick => Budget { random_runs: (24_000.0 * scale) as u64, conc_runs: (6_000.0 * scale) as u64, max_secs: 120 },
+        Tier::Thorough => Budget { random_runs: (600_000.0 * scale) as u64, conc_runs: (150_000.0 * scale) as u64, max_secs: 1500 },
     }
 }
 
@@ -375,6 +422,28 @@ pub fn exec_fresh(run: &IoRun) -> Result<Option<Violation>, String> {
     let dir = report::make_scratch("c19x");
     let f = dir.join(format!("cand-{}.json", std::process::id()));
     std::fs::write(&f, serde_json::to_string(run).unwrap()).map_err(|e| e.to_string())?;
+    let outs = pool::run_children(&[vec!["c19-exec".into(), f.to_str().unwrap().to_string()]]);
+    let _ = std::fs::remove_dir_all(&dir);
+    let o = &outs[0];
+    match o.code {
+        Some(0) | Some(1) => {
+            let line = o.lines.iter().rev().find(|l| l.starts_with('{')).ok_or("no output from exec")?;
+            let v: Value = serde_json::from_str(line).map_err(|e| e.to_string())?;
+            if v["violation"].is_null() {
+                Ok(None)
+            } else {
+                serde_json::from_value(v["violation"].clone()).map(Some).map_err(|e| e.to_string())
+            }
+        }
+        other => Err(format!("exec process failed: code={:?} signal={:?} stderr={}", other, o.signal, o.stderr)),
+    }
+}
+
+/// Runs a concurrent-caller run in a fresh process.
+pub fn exec_fresh_conc(run: &super::conc::ConcRun) -> Result<Option<Violation>, String> {
+    let dir = report::make_scratch("c19y");
+    let f = dir.join("cand.json");
+    std::fs::write(&f, serde_json::to_string(&json!({"conc_run": run})).unwrap()).map_err(|e| e.to_string())?;
     let outs = pool::run_children(&[vec!["c19-exec".into(), f.to_str().unwrap().to_string()]]);
     let _ = std::fs::remove_dir_all(&dir);
     let o = &outs[0];
@@ -416,10 +485,21 @@ pub fn check_main(tier: Tier) -> i32 {
                 tier.name().into(),
                 "--max-secs".into(),
                 b.max_secs.to_string(),
+                "--conc-count".into(),
+                ((b.conc_runs + w as u64 - 1) / w as u64).to_string(),
             ]
         })
         .collect();
-    let outs = pool::run_children(&argvs);
+    let mut outs = pool::run_children(&argvs);
+    let mut hung_runs = 0u64;
+    for o in outs.iter_mut() {
+        // a hung concurrent run (a blocking primitive the simulator does not own) ends the worker
+        // early with code 3; what it did until then counts, the hang is recorded, never a verdict
+        if o.code == Some(3) {
+            o.code = Some(0);
+            hung_runs += 1;
+        }
+    }
 
     let mut stats = Stats::default();
     let mut found: Vec<Value> = Vec::new();
@@ -467,12 +547,54 @@ pub fn check_main(tier: Tier) -> i32 {
     let mut replay_attempted = 0u64;
     let mut replay_reproduced = 0u64;
     let mut reported_classes: BTreeMap<String, String> = BTreeMap::new();
-    found.sort_by_key(|f| f["run"]["index"].as_u64().unwrap_or(0));
+    found.sort_by_key(|f| f["run"]["index"].as_u64().or(f["conc_run"]["index"].as_u64()).unwrap_or(0));
     for f in &found {
         let v: Violation = match serde_json::from_value(f["violation"].clone()) {
             Ok(v) => v,
             Err(_) => continue,
         };
+        if f.get("conc_run").is_some() {
+            let Ok(crun) = serde_json::from_value::<super::conc::ConcRun>(f["conc_run"].clone()) else { continue };
+            let class = format!("conc:{}", v.class());
+            if let Some(k) = known.matches("C19", &class, &v.detail) {
+                *known_hits.entry(k.what.clone()).or_insert(0) += 1;
+                continue;
+            }
+            if reported_classes.contains_key(&class) {
+                continue;
+            }
+            replay_attempted += 1;
+            let confirmed = matches!(exec_fresh_conc(&crun), Ok(Some(ref c)) if c.class() == v.class());
+            if confirmed {
+                replay_reproduced += 1;
+            }
+            let (min_run, min_v, info) = if confirmed {
+                super::conc::minimise_conc(&crun, &v)
+            } else {
+                (crun.clone(), v.clone(), json!({"note": "not reproduced in a fresh process; reported unminimised"}))
+            };
+            let replay = json!({
+                "property": "C19",
+                "engine": "fqsim-c19-concurrent",
+                "verif_seed": seed,
+                "run_index": crun.index,
+                "conc_run": min_run,
+                "violation": min_v,
+                "minimised": info,
+                "reproduced_in_fresh_process": confirmed,
+                "replay_cmd": "./check C19 --replay <this file>",
+            });
+            let name = format!("conc-{}-run{}", v.class().replace(':', "-"), crun.index);
+            let path = report::write_replay("C19", &name, &replay).unwrap_or_else(|e| {
+                eprintln!("harness error: cannot write replay: {}", e);
+                std::process::exit(2);
+            });
+            println!("violation (concurrent callers): {} — {}", min_v.invariant, min_v.detail);
+            println!("VIOLATION property=C19 replay={}", path.display());
+            reported_classes.insert(class, path.display().to_string());
+            new_violations += 1;
+            continue;
+        }
         let run: IoRun = match serde_json::from_value(f["run"].clone()) {
             Ok(r) => r,
             Err(_) => continue,
@@ -583,6 +705,15 @@ pub fn check_main(tier: Tier) -> i32 {
             "real": ["fast_qr to_file/to_str/to_bytes and error conversions", "resvg/usvg/tiny-skia/png", "std::fs, std::io::Write::write_all", "the kernel file for every accepted byte", "real-kernel failures: ENOENT/EISDIR/ENOTDIR/ENAMETOOLONG, /dev/full, RLIMIT_FSIZE"],
             "stub": ["libc wrappers open/open64/openat/creat/write/writev/pwrite/close/fsync/fdatasync/rename/ftruncate defined by the harness binary"]
         },
+        "concurrent_callers": {
+            "runs": stats.counters.get("conc:runs").copied().unwrap_or(0),
+            "caller_threads": stats.counters.get("conc:tasks").copied().unwrap_or(0),
+            "context_switches": stats.counters.get("conc:context_switches").copied().unwrap_or(0),
+            "scheduling_points_at_syscalls": stats.counters.get("conc:syscall_scheduling_points").copied().unwrap_or(0),
+            "switches_at_syscalls": stats.counters.get("conc:switches_at_syscalls").copied().unwrap_or(0),
+            "hung_runs_skipped": hung_runs,
+            "what": "2..4 caller threads write different files into one directory under the seeded baton scheduler; every tracked open/write/rename/close and every verif_point! is a scheduling point",
+        },
         "workers": w,
     });
     let ev = report::base_evidence(
@@ -635,15 +766,19 @@ pub fn replay_main(path: &str) -> i32 {
             return 2;
         }
     };
-    let run: IoRun = match serde_json::from_value(v["run"].clone()) {
-        Ok(r) => r,
-        Err(e) => {
-            eprintln!("harness error: {}", e);
-            return 2;
+    let recorded: Option<Violation> = serde_json::from_value(v["violation"].clone()).ok();
+    let result = if v.get("conc_run").is_some() {
+        match serde_json::from_value::<super::conc::ConcRun>(v["conc_run"].clone()) {
+            Ok(r) => exec_fresh_conc(&r),
+            Err(e) => Err(e.to_string()),
+        }
+    } else {
+        match serde_json::from_value::<IoRun>(v["run"].clone()) {
+            Ok(r) => exec_fresh(&r),
+            Err(e) => Err(e.to_string()),
         }
     };
-    let recorded: Option<Violation> = serde_json::from_value(v["violation"].clone()).ok();
-    match exec_fresh(&run) {
+    match result {
         Ok(Some(got)) => {
             println!("replayed: {} — {}", got.invariant, got.detail);
             if let Some(r) = &recorded {
